@@ -220,7 +220,154 @@ fn run_schedule(h: &mut Harness, variant: usize, order: &[usize], sched: &[Vec<u
     Ok((problems, detail))
 }
 
+// ------------------------------------------------------------------ (c) transactions that push to a key other clients are blocked on
+
+/// queued command lists; `q` is the key the waiters block on, `o` another list
+fn blocked_bodies() -> Vec<Vec<Vec<&'static str>>> {
+    vec![
+        vec![vec!["RPUSH", "q", "a"], vec!["RPUSH", "q", "b"], vec!["LLEN", "q"], vec!["LRANGE", "q", "0", "-1"]],
+        vec![vec!["LPUSH", "q", "a"], vec!["LPOP", "q"]],
+        vec![vec!["RPUSH", "q", "a", "b"], vec!["LLEN", "q"], vec!["DEL", "q"], vec!["LLEN", "q"]],
+        vec![vec!["RPUSH", "q", "a"], vec!["RPUSH", "o", "x"], vec!["LLEN", "q"], vec!["LLEN", "o"]],
+        vec![vec!["LPUSH", "q", "a"], vec!["RPUSH", "q", "b"], vec!["RPOP", "q"], vec!["LLEN", "q"]],
+        vec![vec!["RPUSH", "q", "a"], vec!["EVAL", "return redis.call('LLEN','q')", "0"], vec!["LPOP", "q"]],
+        vec![vec!["RPUSH", "q", "a"], vec!["RENAME", "q", "o"], vec!["LLEN", "o"], vec!["EXISTS", "q"]],
+    ]
+}
+
+fn blocked_waiters() -> Vec<Vec<Vec<&'static str>>> {
+    vec![
+        vec![vec!["BLPOP", "q", "0"]],
+        vec![vec!["BRPOP", "q", "0"]],
+        vec![vec!["BLPOP", "q", "0"], vec!["BRPOP", "q", "0"]],
+        vec![vec!["BLPOP", "o", "q", "0"]],
+        vec![vec!["BLPOP", "q", "5"]],
+        vec![vec!["BLPOP", "q", "0"], vec!["BLPOP", "o", "0"]],
+    ]
+}
+
+/// run one body with the given waiters; returns (EXEC reply, elements served to waiters, final q, final o)
+fn run_blocked(h: &mut Harness, body: &[Vec<&'static str>], waiters: &[Vec<&'static str>], one_write: bool) -> Result<(R, Vec<String>, R, R), String> {
+    h.ensure()?;
+    h.aux_call(&["FLUSHALL"])?;
+    let mut ws: Vec<Client> = Vec::new();
+    for w in waiters {
+        let mut c = h.srv.as_ref().unwrap().connect().map_err(|e| format!("{:?}", e))?;
+        c.send(&resp::cmd(w));
+        let _ = h.srv.as_ref().unwrap().steps(2);
+        ws.push(c);
+    }
+    let mut t = h.srv.as_ref().unwrap().connect().map_err(|e| format!("{:?}", e))?;
+    let mut reqs: Vec<Vec<u8>> = vec![resp::cmd(&["MULTI"])];
+    for c in body {
+        reqs.push(resp::cmd(c));
+    }
+    reqs.push(resp::cmd(&["EXEC"]));
+    let mut frames: Vec<R> = Vec::new();
+    let take = |t: &mut Client, frames: &mut Vec<R>| -> Result<(), String> {
+        t.poll();
+        loop {
+            match t.take_frame() {
+                Ok(Some(f)) => frames.push(f),
+                Ok(None) => return Ok(()),
+                Err(e) => return Err(format!("garbage: {}", e)),
+            }
+        }
+    };
+    if one_write {
+        t.send(&reqs.concat());
+        let _ = h.srv.as_ref().unwrap().step();
+        take(&mut t, &mut frames)?;
+    } else {
+        for r in reqs.iter() {
+            t.send(r);
+            let _ = h.srv.as_ref().unwrap().step();
+            take(&mut t, &mut frames)?;
+        }
+    }
+    for _ in 0..6 {
+        let _ = h.srv.as_ref().unwrap().step();
+        take(&mut t, &mut frames)?;
+    }
+    if frames.len() != reqs.len() {
+        return Err(format!("transaction got {} replies for {} requests", frames.len(), reqs.len()));
+    }
+    let exec = frames.last().cloned().unwrap_or(R::Nil);
+    let mut served: Vec<String> = Vec::new();
+    for w in ws.iter_mut() {
+        w.poll();
+        while let Ok(Some(f)) = w.take_frame() {
+            if let R::Arr(v) = &f {
+                if v.len() == 2 {
+                    served.push(format!("{}:{}", resp::show(&v[0]), resp::show(&v[1])));
+                }
+            }
+        }
+        w.discard();
+    }
+    t.discard();
+    let _ = h.srv.as_ref().unwrap().steps(3);
+    let q = h.aux_call(&["LRANGE", "q", "0", "-1"])?;
+    let o = h.aux_call(&["LRANGE", "o", "0", "-1"])?;
+    Ok((exec, served, q, o))
+}
+
+fn blocked_family() -> Value {
+    thread_local! { static HB: std::cell::RefCell<Option<Harness>> = const { std::cell::RefCell::new(None) }; }
+    HB.with(|hh| {
+        let mut hh = hh.borrow_mut();
+        if hh.is_none() {
+            *hh = Some(Harness::new(SrvOpts::default()));
+        }
+        let h = hh.as_mut().unwrap();
+        let mut recs = Vec::new();
+        let mut errors = Vec::new();
+        let mut n = 0u64;
+        let elems = |r: &R| -> Vec<String> { r.as_arr().map(|a| a.iter().map(resp::show).collect()).unwrap_or_default() };
+        for (bi, body) in blocked_bodies().iter().enumerate() {
+            for one_write in [true, false] {
+                // the reference: the same transaction with nobody waiting
+                let reference = match run_blocked(h, body, &[], one_write) {
+                    Ok(r) => r,
+                    Err(e) => {
+                        errors.push(format!("body {} reference: {}", bi, e));
+                        continue;
+                    }
+                };
+                for (wi, waiters) in blocked_waiters().iter().enumerate() {
+                    n += 1;
+                    match run_blocked(h, body, waiters, one_write) {
+                        Ok((exec, served, q, o)) => {
+                            let mut problems: Vec<&str> = Vec::new();
+                            if exec != reference.0 {
+                                problems.push("a-blocked-client-was-served-in-the-middle-of-EXEC");
+                            }
+                            // what the waiters got plus what is left is what the transaction alone leaves behind
+                            let mut have: Vec<String> = elems(&q).into_iter().map(|e| format!("\"q\":{}", e)).chain(elems(&o).into_iter().map(|e| format!("\"o\":{}", e))).chain(served.iter().cloned()).collect();
+                            let mut want: Vec<String> = elems(&reference.2).into_iter().map(|e| format!("\"q\":{}", e)).chain(elems(&reference.3).into_iter().map(|e| format!("\"o\":{}", e))).collect();
+                            have.sort();
+                            want.sort();
+                            if have != want {
+                                problems.push("elements-after-EXEC-and-wake-ups-differ-from-the-transaction-alone");
+                            }
+                            for p in problems {
+                                recs.push(json!({"problem": p, "body": body.iter().map(|c| c.join(" ")).collect::<Vec<_>>(), "waiters": waiters.iter().map(|c| c.join(" ")).collect::<Vec<_>>(), "one_write": one_write,
+                                    "exec": resp::show(&exec), "exec_without_waiters": resp::show(&reference.0), "served": served, "q": resp::show(&q), "o": resp::show(&o), "class": format!("body{} waiters{}", bi, wi)}));
+                            }
+                        }
+                        Err(e) => errors.push(format!("body {} waiters {}: {}", bi, wi, e)),
+                    }
+                }
+            }
+        }
+        json!({"recs": recs, "errors": errors, "n": n})
+    })
+}
+
 fn extra_worker(_tier: &str, task: &Value, _io: &mut WorkerIo) -> Option<Value> {
+    if task.get("blocked").is_some() || task.get("replay").map(|r| r["kind"] == "blocked").unwrap_or(false) {
+        return Some(blocked_family());
+    }
     thread_local! { static H: std::cell::RefCell<Option<Harness>> = const { std::cell::RefCell::new(None) }; }
     let run = |variant: usize, order: Vec<usize>, a: usize, b: usize| -> Value {
         H.with(|hh| {
@@ -284,6 +431,21 @@ fn extra_parent(pool: &Pool, tier: &str, report: &mut RunReport) -> Value {
             }
         }
     }
+    // (c) the blocked-waiter family: one task
+    let mut blocked_n = 0u64;
+    match &pool.map(vec![json!({"blocked": true})], 0)[0] {
+        Outcome::Done(v) => {
+            for e in v["errors"].as_array().cloned().unwrap_or_default() {
+                report.machinery_errors.push(format!("{}", e));
+            }
+            blocked_n = v["n"].as_u64().unwrap_or(0);
+            for r in v["recs"].as_array().cloned().unwrap_or_default() {
+                report.deviations.push(Deviation { property: "C07".into(), sig: format!("C07|BLOCKED-WAITERS|{}|{}", r["class"].as_str().unwrap_or(""), r["problem"].as_str().unwrap_or("")), replay: json!({"kind": "blocked", "detail": r}) });
+            }
+        }
+        Outcome::Died { status, case } => report.machinery_errors.push(format!("blocked-waiter worker died: {} {:?}", status, case)),
+    }
+    println!("  c07-blocked-waiters: scenarios={}", blocked_n);
     let out = pool.map(tasks, 0);
     let mut n = 0u64;
     let mut outcomes: BTreeSet<u64> = BTreeSet::new();
@@ -320,7 +482,8 @@ fn extra_parent(pool: &Pool, tier: &str, report: &mut RunReport) -> Value {
     if outcomes.len() < 2 {
         report.machinery_errors.push("vacuity: all isolation schedules produced the same replies (nothing interleaved)".into());
     }
-    json!({"isolation_schedules": {"executions": n, "variants": ["one command per chunk", "fragmented mid-command", "script"], "connection_orders": orders.len(), "distinct_reply_patterns": outcomes.len(), "samples": samples}})
+    json!({"blocked_waiter_scenarios": {"executions": blocked_n, "rule": "7 transaction bodies that push to a key x 6 sets of clients blocked on it (BLPOP, BRPOP, both, two keys, timed) x {one write, one command per iteration}: the EXEC reply equals that of the same transaction with nobody waiting, and what the waiters got plus what is left equals what the transaction alone leaves behind"},
+        "isolation_schedules": {"executions": n, "variants": ["one command per chunk", "fragmented mid-command", "script"], "connection_orders": orders.len(), "distinct_reply_patterns": outcomes.len(), "samples": samples}})
 }
 
 fn prop() -> DataProp {
